@@ -6,7 +6,8 @@
    read from accounts.go / passwd.go / group.go / paths.go on this run
    (Generated/C13Consts.v); [maxl] is the filesystems' symlink nesting limit. *)
 From Apko Require Import Base.Prelude Model.C13Fs Model.Accounts Model.PathMut Model.C13Build Generated.C13Consts
-  Spec.AccountsSpec Spec.PathMutSpec Proofs.AccountsProofs Proofs.AccountsCodec Proofs.PathMutResolve Proofs.AccountsHomes Proofs.PathMutProofs Proofs.PathMutFrame Proofs.PathMutFuel Proofs.PathMutKinds Proofs.PathMutBuild.
+  Spec.AccountsSpec Spec.PathMutSpec Proofs.AccountsProofs Proofs.AccountsCodec Proofs.PathMutResolve Proofs.AccountsHomes Proofs.PathMutProofs Proofs.PathMutFrame Proofs.PathMutFuel Proofs.PathMutKinds Proofs.PathMutBuild
+  Proofs.PathMutWf Proofs.PathMutExact Proofs.AccountsParsed.
 Open Scope string_scope. Open Scope list_scope.
 
 (* the constants in the source are the documented defaults: /bin/sh, /home/,
@@ -388,3 +389,275 @@ Example c13_pipeline_example :
     option_map sinfo_of (match stat 40 f' (path_of apko_config_path) with FOk n => Some n | _ => None end)
       = Some (mkSinfo KFile apko_config_perm 0 0).
 Proof. eexists. eexists. split; [vm_compute; reflexivity|]. repeat split; vm_compute; reflexivity. Qed.
+
+(* ======================= session 6: exactness, order, well-formedness ======================= *)
+
+(* c13_empty_file_path.  The path-level statement for empty-file.  For every tree
+   and every empty-file mutation whose path is written without "." / ".." and
+   without a trailing slash (what filepath.Clean leaves), and which in the
+   result is not the NAME OF A SYMBOLIC LINK (openFile follows such a link by
+   its own rules: not covered): the entry stored under the path and what the
+   path resolves to are ONE node t, and that node
+   - is neither a directory nor a link; it is a regular file when it was
+     created by this mutation, and keeps its kind when it existed (a regular
+     file — also one backed by a package's tar entry on tarfs — or a device);
+   - has an empty buffer, and reads as empty once truncation lets go of the tar
+     entry ([tarfs_trunc_detaches], read from pkg/tarfs/fs.go: true since fix
+     5efa993, so a package-backed file is empty as well);
+   - carries the declared mode and owner. *)
+Theorem c13_empty_file_path : forall maxl f m f',
+  m_type m = "empty-file" -> mutate_one maxl f m = FOk f' ->
+  let p := path_of (m_path m) in
+  forallb tidy (p_comps p) = true -> p_trail p = false ->
+  (forall l, direct maxl f' p = FOk l -> nkind l <> KSym) ->
+  exists t n, gn maxl f' p = FOk t /\ direct_idx maxl f' p = FOk t /\ get f' t = Some n /\
+    ndata n = "" /\ edata n = nback n /\ (tarfs_trunc_detaches = true -> edata n = "") /\
+    nperm n = m_perm m /\ nuid n = m_uid m /\ ngid n = m_gid m /\
+    nkind n <> KDir /\ nkind n <> KSym /\
+    (List.length f <= t -> nkind n = KFile)%nat /\
+    (forall n0, get f t = Some n0 -> nkind n = nkind n0).
+Proof. exact empty_file_path. Qed.
+Print Assumptions c13_empty_file_path.
+(* satisfiable: a fresh file, and a package-backed file of tarfs (truncation detaches today) *)
+Example c13_empty_file_path_example :
+  tarfs_trunc_detaches = true /\
+  let f := [mkNode KDir 493 0 0 "" "" [("lib", 1%nat)] ""; mkNode KDir 493 0 0 "" "" [("a.so", 2%nat)] ""; mkNode KFile 420 0 0 "" "" [] "ELF"] in
+  forall m, In m [mkMut "empty-file" "/lib/a.so" "" 384 5 6 false; mkMut "empty-file" "/etc/new/f" "" 416 0 0 false] ->
+    match mutate_one 40 f m with
+    | FOk f' => match stat 40 f' (path_of (m_path m)) with
+                | FOk n => nkind n = KFile /\ edata n = "" /\ nperm n = m_perm m /\ nuid n = m_uid m
+                | _ => False end
+    | _ => False end.
+Proof. split; [reflexivity|]. intros f m [<-|[<-|[]]]; vm_compute; repeat split. Qed.
+
+(* finding C13-F6: with a trailing slash the statement fails — the path becomes a
+   directory carrying the declared mode/owner and the file is nested inside it *)
+Theorem c13_empty_file_trailing_slash_refuted :
+  empty_file_path_cleaned = false ->
+  exists m f', m_type m = "empty-file" /\ m_path m = "/x/y/" /\ p_trail (path_of (m_path m)) = true /\
+    mutate_paths 40 (empty_fs 493) [m] = FOk f' /\
+    (exists n, stat 40 f' (path_of (m_path m)) = FOk n /\ nkind n = KDir /\ nperm n = m_perm m /\ nuid n = m_uid m) /\
+    (exists n, stat 40 f' (path_of "/x/y/y") = FOk n /\ nkind n = KFile /\ nperm n = create_perm /\ nuid n = 0%N) /\
+    realised_tags m (mkStep None (match stat 40 f' (path_of (m_path m)) with FOk n => Some (sinfo_of n) | _ => None end) 0 None [])
+      = ["viol:empty-file-trailing-slash-nests-file"].
+Proof. exact empty_file_trailing_slash_refuted. Qed.
+Print Assumptions c13_empty_file_trailing_slash_refuted.
+
+(* c13_recursive_exact.  Only `directory` honours `recursive` (mutatePermissions
+   ignores the flag).  For every tree without a doubly-listed name
+   ([no_shadow], kept by every operation: c13_wf_preserved) and every recursive
+   directory mutation, with f0 the tree after MkdirAll and t what the path
+   resolves to there, [reach maxl f0 p t] is EXACTLY the set of nodes the
+   mutation touches:
+   - reach = t itself, every node below t through entries that are not symbolic
+     links (any depth; contains [below] of c13_mutations_recursive), and the
+     nodes that the symbolic-link entries met on the way RESOLVE to (fs.WalkDir
+     does not descend a link, but the callback's Chmod/Chown go through it — so
+     a node outside the directory changes when a link inside points at it);
+   - every node in reach ends with exactly the declared mode and owner;
+   - every node NOT in reach is, field for field, what it was after MkdirAll —
+     and MkdirAll changes no existing node's kind, mode, owner, target or
+     content (fs_ext) and adds only directories with the declared mode. *)
+Theorem c13_recursive_exact : forall maxl f m f',
+  no_shadow f -> m_type m = "directory" -> m_recursive m = true -> mutate_one maxl f m = FOk f' ->
+  let p := path_of (m_path m) in
+  exists f0 t, mkdirall maxl f p (m_perm m) = FOk f0 /\ gn maxl f0 p = FOk t /\
+    fs_ext f f0 /\ (forall i n, (List.length f <= i)%nat -> get f0 i = Some n -> fresh_dir (m_perm m) n) /\
+    (forall j, reach maxl f0 p t j -> has_attrs_at (m_perm m) (m_uid m) (m_gid m) f' j) /\
+    (forall j, ~ reach maxl f0 p t j -> get f' j = get f0 j) /\
+    (forall j, below f0 t j -> reach maxl f0 p t j).
+Proof. exact directory_recursive_exact. Qed.
+Print Assumptions c13_recursive_exact.
+(* satisfiable, and the link case is real: /d holds a link to /out; /out changes, /other does not *)
+Example c13_recursive_exact_example :
+  let f := [mkNode KDir 493 0 0 "" "" [("d", 1%nat); ("out", 3%nat); ("other", 4%nat)] ""; mkNode KDir 493 0 0 "" "" [("l", 2%nat)] "";
+            mkNode KSym 511 0 0 "/out" "" [] ""; mkNode KFile 420 0 0 "" "o" [] ""; mkNode KFile 420 0 0 "" "x" [] ""] in
+  no_shadow f /\
+  match mutate_one 40 f (mkMut "directory" "/d" "" 448 7 8 true) with
+  | FOk f' => option_map sinfo_of (get f' 3%nat) = Some (mkSinfo KFile 448 7 8) /\ get f' 4%nat = get f 4%nat /\
+              option_map sinfo_of (get f' 2%nat) = Some (mkSinfo KSym 511 0 0)
+  | _ => False end.
+Proof.
+  intro f. split; [|vm_compute; repeat split].
+  intros i n nm c Hi Hin.
+  do 5 (destruct i as [|i]; [cbn in Hi; inversion Hi; subst; cbn in Hin;
+                             repeat (destruct Hin as [Hin|Hin]; [inversion Hin; subst; reflexivity|]); contradiction|]).
+  cbn in Hi. destruct i; discriminate.
+Qed.
+
+(* c13_wf_preserved.  Well-formedness needs to be assumed of the INITIAL tree only.
+   [no_shadow] (no name twice in a listing) is kept by every mutation, by
+   mutatePaths over any list, and — with [dir_edges_up] — by mutateAccounts and
+   WriteEtcApkoConfig; the whole [wf] (the directory structure is a tree) is kept
+   by a list of mutations provided no hardlink mutation links a DIRECTORY at its
+   turn ([no_dir_hardlinks]; memfs/tarfs Link accept a directory, and fs.WalkDir
+   need not end on the result), in particular by every list without hardlink
+   entries.  Per operation: Proofs/PathMutWf.v (MkdirAll, Mkdir, Chmod, Chown,
+   the walk, openFile, Create+write, Symlink, Remove, Link). *)
+Theorem c13_wf_preserved : forall maxl,
+  (forall f m f', no_shadow f -> mutate_one maxl f m = FOk f' -> no_shadow f') /\
+  (forall ms f f', no_shadow f -> mutate_paths maxl f ms = FOk f' -> no_shadow f') /\
+  (forall ms f f', wf f -> no_dir_hardlinks maxl f ms -> mutate_paths maxl f ms = FOk f' -> wf f') /\
+  (forall ms f, forallb (fun m => negb (String.eqb (m_type m) "hardlink")) ms = true -> no_dir_hardlinks maxl f ms) /\
+  (forall f users groups ra f' ra', wf f -> mutate_accounts maxl f users groups ra = FOk (f', ra') -> wf f') /\
+  (forall f f', wf f -> write_apko_config maxl f = FOk f' -> wf f') /\
+  (forall f old new f', no_shadow f -> link maxl f old new = FOk f' -> no_shadow f') /\
+  (forall f p f', wf f -> remove maxl f p = FOk f' -> wf f').
+Proof.
+  intro maxl. split; [exact (mutate_one_no_shadow maxl)|]. split; [exact (mutate_paths_no_shadow maxl)|].
+  split; [exact (mutate_paths_wf maxl)|]. split; [exact (no_hardlinks_no_dir_hardlinks maxl)|].
+  split; [exact (mutate_accounts_wf maxl)|]. split; [exact (write_apko_config_wf maxl)|].
+  split; [exact (link_no_shadow maxl)|].
+  intros f p f' (U & N) H. split; [eapply remove_dir_edges; eauto | eapply remove_no_shadow; eauto].
+Qed.
+Print Assumptions c13_wf_preserved.
+
+(* c13_mutations_in_order.  mutatePaths applies the declared list IN ORDER, each
+   mutation (of whatever type, `permissions` included) on the tree the earlier
+   ones left.  For every tree without a doubly-listed name and every list
+   ms1 ++ m :: ms2 on which it succeeds: with fk the tree after ms1 ++ [m] and t
+   the node m's path resolves to there,
+   - t carries m's declared mode and owner in fk, and
+   - still at the end, unless a LATER mutation touches t ([touched_seq]: t is what
+     a later mutation's own path resolves to right after it, the file a later
+     empty-file opened, or a node in [reach] of a later recursive directory);
+   - a later mutation m' whose path resolves to the same node overrides m: the
+     final mode and owner of t are those of the LAST mutation that resolves to t
+     (second statement: instance of the first for m').
+   More generally no node changes mode, owner, content, kind or link target
+   except the ones touched ([mutate_paths_untouched]); for lists of simple
+   mutations the touched nodes are [targets] of c13_mutations_frame.
+   This is the statement that deferring `permissions` entries to the end of the
+   list (seeded change C13-5) falsifies: see c13_in_order_example. *)
+Theorem c13_mutations_in_order : forall maxl,
+  (forall ms1 m ms2 f f', no_shadow f -> mutate_paths maxl f (ms1 ++ m :: ms2) = FOk f' ->
+     exists fk t, mutate_paths maxl f (ms1 ++ [m]) = FOk fk /\ mutate_paths maxl fk ms2 = FOk f' /\
+       gn maxl fk (path_of (m_path m)) = FOk t /\
+       has_attrs_at (m_perm m) (m_uid m) (m_gid m) fk t /\
+       (~ touched_seq maxl fk ms2 t -> has_attrs_at (m_perm m) (m_uid m) (m_gid m) f' t)) /\
+  (forall ms1 m ms2 m' ms3 f f', no_shadow f -> mutate_paths maxl f (ms1 ++ m :: ms2 ++ m' :: ms3) = FOk f' ->
+     exists f1 f2 t t', mutate_paths maxl f (ms1 ++ [m]) = FOk f1 /\ gn maxl f1 (path_of (m_path m)) = FOk t /\
+       mutate_paths maxl f ((ms1 ++ m :: ms2) ++ [m']) = FOk f2 /\ gn maxl f2 (path_of (m_path m')) = FOk t' /\
+       (t' = t -> ~ touched_seq maxl f2 ms3 t -> has_attrs_at (m_perm m') (m_uid m') (m_gid m') f' t)) /\
+  (forall ms f f' j a, no_shadow f -> mutate_paths maxl f ms = FOk f' -> get f j = Some a -> ~ touched_seq maxl f ms j ->
+     exists a', get f' j = Some a' /\ same_attrs a a') /\
+  (forall ms f j, forallb simple ms = true -> touched_seq maxl f ms j -> In j (targets maxl f ms)).
+Proof.
+  intro maxl. split; [exact (mutations_in_order maxl)|]. split; [|split; [exact (mutate_paths_untouched maxl) | exact (touched_seq_simple maxl)]].
+  intros ms1 m ms2 m' ms3 f f' NS H.
+  assert (H' : mutate_paths maxl f ((ms1 ++ m :: ms2) ++ m' :: ms3) = FOk f') by (rewrite <- app_assoc; exact H).
+  destruct (mutations_in_order maxl _ _ _ _ _ NS H') as (f2 & t' & K2 & R2 & G2 & _ & F2).
+  rewrite <- app_assoc in K2. cbn [app] in K2.
+  assert (K1 : exists f1, mutate_paths maxl f (ms1 ++ [m]) = FOk f1).
+  { replace (ms1 ++ m :: ms2 ++ [m']) with ((ms1 ++ [m]) ++ ms2 ++ [m']) in K2 by (rewrite <- app_assoc; reflexivity).
+    rewrite mutate_paths_app_gen in K2. destruct (mutate_paths maxl f (ms1 ++ [m])) as [f1| | |]; try discriminate. eauto. }
+  destruct K1 as (f1 & K1).
+  destruct (mutate_paths_app maxl _ _ _ _ K1) as (f0 & _ & Hm). destruct (mutate_one_post maxl _ _ _ Hm) as (n & Hs & _).
+  unfold stat, gnode in Hs. destruct (gn maxl f1 (path_of (m_path m))) as [t| | |] eqn:Gt; try discriminate.
+  exists f1, f2, t, t'. split; [exact K1|]. split; [exact Gt|]. split; [rewrite <- app_assoc; exact K2|]. split; [exact G2|].
+  intros E Hnt. subst t'. apply F2. exact Hnt.
+Qed.
+Print Assumptions c13_mutations_in_order.
+(* the configuration class of seeded change C13-5 on the model: a `permissions`
+   entry followed by a directory mutation of the same path — the LATER one decides
+   (0755 root), not the permissions entry (0700 5:5) *)
+Example c13_in_order_example :
+  let f := [mkNode KDir 493 0 0 "" "" [("d", 1%nat)] ""; mkNode KDir 493 0 0 "" "" [] ""] in
+  let ms := [mkMut "permissions" "/d" "" 448 5 5 false; mkMut "directory" "/d" "" 493 0 0 false] in
+  match mutate_paths 40 f ms with
+  | FOk f' => option_map sinfo_of (get f' 1%nat) = Some (mkSinfo KDir 493 0 0) /\
+              targets 40 f ms = [1%nat; 1%nat]
+  | _ => False end.
+Proof. vm_compute. split; reflexivity. Qed.
+
+(* c13_parsed_wellformed.  Entries obtained by PARSING any passwd / group text are
+   well-formed in everything but the length of the line they are re-written as
+   (fields without ':' and newline, no blank before the name or after the last
+   field, ids below 2^32; members without ','), so: whatever text the packages
+   ship, if it parses, and the CONFIGURED entries' fields are clean, and the
+   written lines stay below the scanner's limit, the file mutateAccounts writes
+   reads back as exactly old ++ configured (groups: up to the [""] member
+   list).  The length condition cannot be dropped: an id written "-1" comes back
+   as 4294967295 ([parsed_line_may_grow]). *)
+Theorem c13_parsed_wellformed :
+  (forall txt es, parse_users txt = Some es -> forallb wf_user_fields es = true) /\
+  (forall txt es, parse_groups txt = Some es -> forallb wf_group_fields es = true) /\
+  (forall e, wf_user e = wf_user_fields e && short_user e) /\ (forall e, wf_group e = wf_group_fields e && short_group e) /\
+  (forall txt old users, parse_users txt = Some old -> forallb clean_user users = true ->
+     forallb short_user (old ++ List.map user_to_entry users) = true ->
+     parse_users (write_users (old ++ List.map user_to_entry users)) = Some (old ++ List.map user_to_entry users)) /\
+  (forall txt old groups, parse_groups txt = Some old -> forallb clean_group groups = true ->
+     forallb short_group (old ++ List.map group_to_entry groups) = true ->
+     parse_groups (write_groups (old ++ List.map group_to_entry groups)) =
+       Some (List.map norm_group (old ++ List.map group_to_entry groups))) /\
+  (exists line e, parse_user line = Some e /\ (String.length line < String.length (user_line e))%nat).
+Proof.
+  split; [exact parsed_users_wf|]. split; [exact parsed_groups_wf|]. split; [exact wf_user_split|]. split; [exact wf_group_split|].
+  split; [exact clean_accounts_reread|]. split; [|exact parsed_line_may_grow].
+  intros txt old groups Hp Hc Hs. eapply reread_parsed_groups; eauto.
+  rewrite forallb_forall in *. intros e He. apply in_map_iff in He. destruct He as (g & <- & Hg). apply (Hc g Hg).
+Qed.
+Print Assumptions c13_parsed_wellformed.
+Example c13_parsed_wellformed_example :
+  clean_user (mkCU "app" 1000 None "" "") = true /\ clean_group (mkCG "g" 5 ["a"; "b"]) = true /\
+  exists old, parse_users (String.append "root:x:0:0:root:/root:/bin/ash" (String nl "")) = Some old /\
+              forallb short_user (old ++ [user_to_entry (mkCU "app" 1000 None "" "")]) = true.
+Proof. split; [reflexivity|]. split; [reflexivity|]. eexists. split; [vm_compute; reflexivity | vm_compute; reflexivity]. Qed.
+
+(* c13_group_collisions.  What the accounts writer does when a configured group
+   collides with an entry that is already in etc/group — same name and another
+   gid, same gid and another name, same name AND gid (with other or the same
+   members), or an earlier identical configured group: NOTHING special.
+   appendGroup appends: every pre-existing entry stays at its position, each
+   configured group's entry stands after all of them, in configuration order,
+   with exactly its configured name, gid and member list (nothing merged, nothing
+   dropped), and the text is the old entries' text followed by the configured
+   entries' text.  (Seeded change C13-6 — skip a configured group that is already
+   there under the same name and gid — falsifies the length and the position
+   statements.) *)
+Theorem c13_group_collisions : forall maxl f groups f',
+  groups <> [] -> mutate_groups maxl f groups = FOk f' ->
+  exists fa txt old fb i,
+    read_or_create maxl f etc_group group_open_perm = FOk (fa, txt) /\ parse_groups txt = Some old /\
+    openfile maxl maxl fa etc_group create_perm = FOk (fb, i) /\
+    let final := old ++ List.map group_to_entry groups in
+    f' = upd fb i (fun n => trunc_write n (write_groups final)) /\
+    write_groups final = (write_groups old ++ write_groups (List.map group_to_entry groups))%string /\
+    List.length final = (List.length old + List.length groups)%nat /\
+    (forall k e, nth_error old k = Some e -> nth_error final k = Some e) /\
+    (forall k g, nth_error groups k = Some g ->
+       nth_error final (List.length old + k)%nat = Some (mkGE (cg_name g) group_password (cg_gid g) (cg_members g))).
+Proof. exact group_collisions. Qed.
+Print Assumptions c13_group_collisions.
+(* the three collision kinds on a concrete file *)
+Example c13_group_collisions_example :
+  let old := [mkGE "bin" "x" 1 ["root"; "bin"]] in
+  let tree := [mkNode KDir 493 0 0 "" "" [("etc", 1%nat)] ""; mkNode KDir 493 0 0 "" "" [("group", 2%nat)] "";
+               mkNode KFile 420 0 0 "" (write_groups old) [] ""] in
+  forall g, In g [mkCG "bin" 1 ["app"]; mkCG "bin" 7 []; mkCG "other" 1 ["bin"]] ->
+    match mutate_groups 40 tree [g] with
+    | FOk f' => match gnode 40 f' etc_group with
+                | FOk n => ndata n = (write_groups old ++ write_group (group_to_entry g))%string
+                | _ => False end
+    | _ => False end.
+Proof. exact group_collision_examples. Qed.
+
+(* c13_account_separators_refuted, finding C13-F5.  Validate (accounts part, as
+   modelled from the source: a user needs a name and a uid other than 0, a group
+   a name; [validate_forbidden] = the strings.ContainsAny tests goextract found in
+   it — none today) accepts a shell holding a newline and a name holding ':'.
+   mutateAccounts writes fields verbatim, so the passwd file then re-reads as
+   the configured user followed by an entry NOBODY CONFIGURED (here one with uid
+   0, which Validate refuses for configured users), or cannot be read at all —
+   "exactly the configured users" fails.  For configurations that are clean
+   (c13_parsed_wellformed) it holds. *)
+Theorem c13_account_separators_refuted :
+  validate_forbidden = [] ->
+  validate_accounts [inject_user] [] = true /\ validate_accounts [colon_user] [] = true /\
+  clean_user inject_user = false /\ clean_user colon_user = false /\
+  (exists txt, passwd_after [inject_user] = Some txt /\
+     parse_users txt = Some [user_to_entry (mkCU "app" 1000 None "/bin/sh" ""); mkUE "root2" "x" 0 0 "" "/root" "/bin/sh"] /\
+     parse_users txt <> Some (List.map user_to_entry [inject_user])) /\
+  (exists txt, passwd_after [colon_user] = Some txt /\ parse_users txt = None).
+Proof. exact separators_refuted. Qed.
+Print Assumptions c13_account_separators_refuted.
